@@ -829,6 +829,17 @@ class NodeFor:
         self.what = what
 
     def evaluate(self, environment):
+        try:
+            return self.evaluateLoop(environment)
+        except BaseException:
+            # a loop left by an error removes its loop variables
+            # like a loop that ends
+            for identifier in self.identifiers:
+                if identifier in environment.map:
+                    environment.remove(identifier)
+            raise
+
+    def evaluateLoop(self, environment):
         lst = self.expression.evaluate(environment)
         if lst.isInput():
             input_ = lst
